@@ -6,14 +6,14 @@ import json
 
 PROPS = {
     'C20': {
-        'always_cmds': [['exploreflood'], ['explorenoinfo']],
+        'always_cmds': [['exploreflood'], ['explorenoinfo'], ['exploreslowfail']],
         'engines': [('explore', 150, 3000, ['-shardsize', '50'])],
         'rule': 'plus explorenoinfo (a probe attempted while the scrape manager has no client for the job is a failed probe: shown as bad, retried, succeeds once the client exists, then silence); op jobinfo in the histories: the scrape manager alone is reloaded with fewer / all jobs; plus, in every run, the queue flood (exploreflood: 10060 targets, 4 workers whose probes hang, Get(all) until nothing moves, release, Get(all) again: Get must return and every target must have been probed); histories of 8-20 (8-30) ops on the REAL Explore with 1-3 worker goroutines: full discovery updates over 5 hashes x 3 jobs '
                 '(adds, removals, moves), Get, reloads dropping/restoring a job, completion of the oldest blocked probe of a hash with success '
                 '(counts) or failure, and "let the retry timers fire" (real sleeps; retry interval 400 ms via hook); the probe function is '
                 'replaced (hook) by one that blocks until the harness completes it, so the harness is the scheduler, and then runs the explorer\'s OWN probe function (hook VerifDefaultProbe: real request, stream parser, sample statistics) against a scripted connection that plays the outcome on the wire: success = a complete exposition with the scripted numbers of kept and relabel-dropped samples, failure = connection refused, 500, 404, a body that breaks off with an error, a connection reset half way or at once. Observed after every op: '
                 'the multiset of blocked probes, probes started per hash, and what Get returned. Every history ends by asking for all hashes. '
-                'non-trivial = >= 4 ops (all); distinct by input',
+                'non-trivial = >= 4 ops (all); distinct by input || exploreslowfail, in every run: a probe that hangs for one and a half retry intervals before it fails (three times, then succeeds): the next attempt starts one interval after the failure, four attempts in all',
         'theorems': 'C20_no_client_is_a_failed_probe C20_asked_once C20_accounted C20_one_in_flight_per_entry C20_quiet_after_success C20_estimate C20_failed_probe '
                     'C20_one_in_flight_per_target_refuted',
         'trusted_base': ['Model/Explore.v hand-written LTS of explore.go (atomic critical sections, eager workers, FIFO channel); tie = step-by-step '
@@ -52,7 +52,7 @@ PROPS = {
                        'property',
                        "lines within the parser's 256 KiB limit; gzip decoding is a function applied before the tee (chunks are the decompressed "
                        'reads)'],
-    'always_cmds': [['proxyoverlap']],
+    'always_cmds': [['proxyoverlap'], ['proxyrun']],
         'engines': [('proxy', 600, 12000, ['-propok', 'c12_case', '-shardsize', '100'])],
     'level_note': 'Trusted: Coq kernel; hand-written model of tee + consumer + ResponseWriter automaton; multi-megabyte payloads and the 256 KiB '
                   'line limit are not in the Coq-evaluated cases (payloads <= a few KB).',
@@ -65,14 +65,15 @@ PROPS = {
             "(1..4000 bytes) and ending in EOF, EOF together with the last data, an error, or a 'connection reset by peer' error after a random "
             'number of reads (incl. before the first byte); Prometheus-side ResponseWriter with scheduled short writes (1,2,3,5,50 bytes) and, '
             'rarely, a failing write. Observed: status, Content-Type at header time, body bytes, every Write call (offered, accepted), abort, and '
-            "the target's status entry. non-trivial = a 200 response with a non-empty body was scripted; distinct by input",
+            "the target's status entry. non-trivial = a 200 response with a non-empty body was scripted; distinct by input || proxyrun, in every run: the proxy as the binary serves it (Proxy.Run on a loopback listener, used as an HTTP proxy as the Prometheus of the shard uses it) and raw TCP targets: the target is asked for its path byte for byte (/billing//metrics, /a/./b, /a/../, trailing slash), gets the whole body; a body that breaks off after a quarter was forwarded does not reach the client as a complete 200 response",
     'theorems': 'C12_bytes C12_prefix C12_tee_chunk',
     'trusted_base': [   'model Model/Proxy.v hand-written from proxy.go/scraper.go/reader.go + the read loop of the vendored exposition parser as an '
                         'abstract consumer; tie = differential run of the real Proxy.ServeHTTP (exact equality incl. the sequence of Write calls '
                         'when no gzip layer is in between)',
                         'the http.ResponseWriter automaton (first Write sends 200, later WriteHeader ignored, ErrAbortHandler aborts) is modelled, '
                         'not verified']},
-    'C13': {   'assumptions': [   'time-outs are modelled as the source ending in an error at some offset; real timer races are not exhibited by the model',
+    'C13': {   'always_cmds': [['proxyrun']],
+          'assumptions': [   'time-outs are modelled as the source ending in an error at some offset; real timer races are not exhibited by the model',
                        'a read error whose text contains "reset by peer" is treated as end of stream by the vendored parser (known finding)'],
     'engines': [   ('proxy', 600, 12000, ['-propok', 'c13_case', '-shardsize', '100']),
                    ('sidecar', 300, 6000, ['-propok', 'c13_counter_case', '-shardsize', '100'])],
@@ -87,7 +88,7 @@ PROPS = {
             "(1..4000 bytes) and ending in EOF, EOF together with the last data, an error, or a 'connection reset by peer' error after a random "
             'number of reads (incl. before the first byte); Prometheus-side ResponseWriter with scheduled short writes (1,2,3,5,50 bytes) and, '
             'rarely, a failing write. Observed: status, Content-Type at header time, body bytes, every Write call (offered, accepted), abort, and '
-            "the target's status entry. non-trivial = a 200 response with a non-empty body was scripted; distinct by input",
+            "the target's status entry. non-trivial = a 200 response with a non-empty body was scripted; distinct by input || proxyrun, in every run: the proxy as the binary serves it (Proxy.Run on a loopback listener, used as an HTTP proxy as the Prometheus of the shard uses it) and raw TCP targets: the target is asked for its path byte for byte (/billing//metrics, /a/./b, /a/../, trailing slash), gets the whole body; a body that breaks off after a quarter was forwarded does not reach the client as a complete 200 response",
     'theorems': 'C13_failure_visible C13_bookkeeping C13_rejected_not_counted C13_eoflike_refuted',
     'trusted_base': [   'model Model/Proxy.v hand-written from proxy.go/scraper.go/reader.go + the read loop of the vendored exposition parser as an '
                         'abstract consumer; tie = differential run of the real Proxy.ServeHTTP (exact equality incl. the sequence of Write calls '
@@ -284,7 +285,8 @@ PROPS = {
                         'Gen/Consts.v regenerated from the Go source by kvharness translate (minWaitScrapeTimes, relief threshold table as exact '
                         'binary64)',
                         'Go map iteration = any permutation, weightedrand.Pick = any eligible shard (Base/Sched.v)']},
-    'C02': {
+    'C02': {   'always_cmds': [['proxyrun']],
+       
         'engines': [('route', 400, 8000, ['-shardsize', '100'])],
         'rule': 'one PRNG: one job (scheme http/https, 2 paths, 0-2 params with 1-2 values) and 1-2 target groups (0-2 group labels, 1-3 entries '
                 'each over addresses without port / with port / invalid / missing, 0-3 labels from env, zone, app, __meta_*, a __meta_ label '
@@ -296,7 +298,7 @@ PROPS = {
                 'Reference = scrape.TargetsFromGroup of the Prometheus library on the original job, de-duplicated as the scrape pool does. System = '
                 'real TargetsDiscovery -> ActiveTargetsByHash -> JSON -> real Injector -> config.Load of the written file -> TargetsFromGroup on '
                 'the generated job -> real Proxy.ServeHTTP with a recording client. Compared: visible labels and the URL really requested. '
-                'non-trivial = the reference has >= 1 active target; distinct by input',
+                'non-trivial = the reference has >= 1 active target; distinct by input || proxyrun, in every run: the proxy as the binary serves it (Proxy.Run on a loopback listener, used as an HTTP proxy as the Prometheus of the shard uses it) and raw TCP targets: the target is asked for its path byte for byte (/billing//metrics, /a/./b, /a/../, trailing slash), gets the whole body; a body that breaks off after a quarter was forwarded does not reach the client as a complete 200 response',
         'theorems': 'C02_equal C02_equal_for_rules_checked C02_equivalent C02_equivalent_checked C02_equivalent_for_rules C02_equivalent_for_rules_checked C02_param_on_shard C02_proxy_restores C02_routing_param_forgotten '
                     'C02_param_shipping C02_equiv_refuted_interval_labels C02_equiv_refuted_job_emptied (+ computed witnesses, C02_hypotheses_satisfiable)',
         'trusted_base': ['Model/Translate.v hand-written model of BOTH routes (library PopulateLabels/Target.URL as reference; kvass populateLabels, '
